@@ -801,3 +801,94 @@ func (tb *TB) Script(asserts []*Term, getValues []*Term, logicFP bool) string {
 	}
 	return sb.String()
 }
+
+// Subst replaces variable v by r in t (rebuilding through the hash-consing constructor).
+func (tb *TB) Subst(t, v, r *Term) *Term {
+	memo := map[int]*Term{}
+	var rec func(t *Term) *Term
+	rec = func(t *Term) *Term {
+		if t == v {
+			return r
+		}
+		if len(t.args) == 0 {
+			return t
+		}
+		if m, ok := memo[t.id]; ok {
+			return m
+		}
+		changed := false
+		args := make([]*Term, len(t.args))
+		for i, a := range t.args {
+			args[i] = rec(a)
+			if args[i] != a {
+				changed = true
+			}
+		}
+		res := t
+		if changed {
+			res = tb.mk(t.op, t.sort, t.val, t.name, args...)
+			if t.op == "forall" {
+				res.hasBound = t.hasBound
+			}
+		}
+		memo[t.id] = res
+		return res
+	}
+	return rec(t)
+}
+
+func (tb *TB) mentions(t, v *Term) bool {
+	seen := map[int]bool{}
+	var rec func(t *Term) bool
+	rec = func(t *Term) bool {
+		if t == v {
+			return true
+		}
+		if seen[t.id] {
+			return false
+		}
+		seen[t.id] = true
+		for _, a := range t.args {
+			if rec(a) {
+				return true
+			}
+		}
+		return false
+	}
+	return rec(t)
+}
+
+// IndexOffsets finds the terms c such that body applies an uninterpreted function (array read) to v+c.
+func (tb *TB) IndexOffsets(body, v *Term) []*Term {
+	var out []*Term
+	got := map[int]bool{}
+	seen := map[int]bool{}
+	var rec func(t *Term)
+	rec = func(t *Term) {
+		if seen[t.id] {
+			return
+		}
+		seen[t.id] = true
+		if t.op == "app" {
+			for _, a := range t.args {
+				if a.op == "bvadd" && len(a.args) == 2 {
+					var c *Term
+					if a.args[0] == v && !tb.mentions(a.args[1], v) {
+						c = a.args[1]
+					} else if a.args[1] == v && !tb.mentions(a.args[0], v) {
+						c = a.args[0]
+					}
+					if c != nil && !got[c.id] && !c.hasBound {
+						got[c.id] = true
+						out = append(out, c)
+					}
+				}
+			}
+		}
+		for _, a := range t.args {
+			rec(a)
+		}
+	}
+	rec(body)
+	return out
+}
